@@ -78,7 +78,7 @@ def r1(F, R):
     sk = subst_closure(F, rk)
     calls = subst_calls(F, rk, sk)
     STOP = subst_stop(sk)
-    R.check(len(calls) == 2, "substitution-call-sites", rk, "name + per-value loop", f"{len(calls)} calls of the substitution routine")
+    R.check(len(calls) >= 2, "substitution-call-sites", rk, "name + step values", f"{len(calls)} calls of the substitution routine")
     # name sink
     name_w = [(s, st) for s, st in rk.assigns(lambda st: st["pl"]["p"] and place_fields(st["pl"])[-1:] == [("gherkin::Scenario", "name")])]
     ok_name = False
@@ -87,34 +87,47 @@ def r1(F, R):
         if any(cs in [c[0] for c in calls] for cs, _ in sl.calls) and sl.has_call(r"Try::branch$"):
             ok_name = True
     R.check(ok_name, "sink/scenario-name", name_w[0][0] if name_w else rk, "expanded.name = replace_templates(name)?", "the scenario name is not substituted")
-    # the value loop: deref write from the substitution result; iterated chain covers value, docstring, table cells
-    dw = [(s, st) for s, st in rk.assigns(lambda st: st["pl"]["p"] == ["*"] and rk.locals[st["pl"]["l"]] == "&mut std::string::String")]
-    ok_loop = False
-    for s, st in dw:
+    # what is substituted and written back: per call site of the substitution routine, the gherkin field its input is read from —
+    # through the one chained loop (`value`, `docstring`, table cells chained into one iterator of `&mut String`) or call by call
+    # (`s.value = subst(&s.value)?; if let Some(d) = &mut s.docstring { *d = subst(d)? } ...`) — and that its `?`-checked result is
+    # stored (a deref write through the `&mut String`, or an assignment to the field)
+    SINKS = {("gherkin::Step", "value"), ("gherkin::Step", "docstring"), ("gherkin::Table", "rows"), ("gherkin::Scenario", "name")}
+    cover = set()
+    stored = 0
+    call_sites = [c[0] for c in calls]
+    writes = [(s, st) for s, st in rk.assigns(lambda st: (st["pl"]["p"] == ["*"] and rk.locals[st["pl"]["l"]] == "&mut std::string::String") or
+                                              (st["pl"]["p"] and place_fields(st["pl"])[-1:] and place_fields(st["pl"])[-1] in SINKS))]
+    for s, st in writes:
         sl = A.slice_back(rk, A.rvalue_operands(st["rv"]), stop_calls=STOP)
-        if any(cs in [c[0] for c in calls] for cs, _ in sl.calls) and sl.has_call(r"Try::branch$"):
-            ok_loop = True
-            # where does the &mut String come from: next() of the chain
-            src = A.slice_back(rk, start_locals=[st["pl"]["l"]], stop_calls=[r"Iterator::next$"])
-            nexts = src.calls_matching(r"Iterator::next$")
-            cover = set()
-            if nexts:
-                it = A.slice_back(rk, [nexts[0][1]["args"][0]], stop_calls=STOP + [r"Iterator::next$"])
-                leaves = T.chain_leaves(F, rk, _into_iter_src(rk, nexts[0][1]["args"][0]))
-                for b2, lo in leaves:
-                    lsl = A.slice_back(b2, [lo], stop_calls=[r"Iterator::chain$", r"Iterator::next$"] + STOP)
-                    fs = {(o, n) for o, n in lsl.fields if o in ("gherkin::Step", "gherkin::Table")}
-                    for _, rv in lsl.aggs:
-                        if rv.get("agg") == "closure":
-                            kb = F.body(rv["def"])
-                            for nb in F.nested(kb) if kb else []:
-                                for _, st2 in nb.assigns():
-                                    for pl in A.rvalue_places(st2["rv"]):
-                                        fs |= {(o, n) for o, n in place_fields(pl) if o in ("gherkin::Step", "gherkin::Table")}
-                    cover |= fs
-            for fld, inst in ((("gherkin::Step", "value"), "step-text"), (("gherkin::Step", "docstring"), "doc-string"), (("gherkin::Table", "rows"), "table-cells")):
-                R.check(fld in cover, f"sink/{inst}", s, f"{fld[1]} is substituted", f"placeholders in a step's {inst.replace('-', ' ')} are not substituted ({fld[0]}.{fld[1]} is not part of the substituted values)")
-    R.check(ok_loop, "sink/value-loop", dw[0][0] if dw else rk, "*value = replace_templates(value)?", "step values are not overwritten with the substitution result")
+        if not (any(cs in call_sites for cs, _ in sl.calls) and sl.has_call(r"Try::branch$")):
+            continue
+        stored += 1
+        if st["pl"]["p"] != ["*"]:
+            cover.add(place_fields(st["pl"])[-1])
+            continue
+        # where does the &mut String come from: a field directly, or next() of an iterator chain over fields
+        src = A.slice_back(rk, start_locals=[st["pl"]["l"]], stop_calls=[r"Iterator::next$"])
+        cover |= {(o, n) for o, n in src.fields if (o, n) in SINKS}
+        nexts = src.calls_matching(r"Iterator::next$")
+        if nexts:
+            direct = A.slice_back(rk, [nexts[0][1]["args"][0]], stop_calls=STOP)
+            cover |= {(o, n) for o, n in direct.fields if (o, n) in SINKS}
+            leaves = T.chain_leaves(F, rk, _into_iter_src(rk, nexts[0][1]["args"][0]))
+            for b2, lo in leaves:
+                lsl = A.slice_back(b2, [lo], stop_calls=[r"Iterator::chain$", r"Iterator::next$"] + STOP)
+                fs = {(o, n) for o, n in lsl.fields if o in ("gherkin::Step", "gherkin::Table")}
+                for _, rv in lsl.aggs:
+                    if rv.get("agg") == "closure":
+                        kb = F.body(rv["def"])
+                        for nb in F.nested(kb) if kb else []:
+                            for _, st2 in nb.assigns():
+                                for pl in A.rvalue_places(st2["rv"]):
+                                    fs |= {(o, n) for o, n in place_fields(pl) if o in ("gherkin::Step", "gherkin::Table")}
+                cover |= fs
+    anchor = writes[0][0] if writes else rk
+    for fld, inst in ((("gherkin::Step", "value"), "step-text"), (("gherkin::Step", "docstring"), "doc-string"), (("gherkin::Table", "rows"), "table-cells")):
+        R.check(fld in cover, f"sink/{inst}", anchor, f"{fld[1]} is substituted", f"placeholders in a step's {inst.replace('-', ' ')} are not substituted ({fld[0]}.{fld[1]} is not part of the substituted values)")
+    R.check(stored >= 2, "sink/value-loop", anchor, "*value = replace_templates(value)?", "step values are not overwritten with the substitution result")
     # every step and every value is substituted: inside the loops the substitution is conditioned on nothing but the
     # iterators producing another element (and the `?` of an earlier substitution)
     for cs, ct in calls:
@@ -137,6 +150,16 @@ def r1(F, R):
                     continue
             if d and d[0] == "discr" and src is None and getattr(g, "derived", False):
                 continue
+            if d and d[0] == "discr" and g.variants() == {"Some"}:
+                # `if let Some(docstring) = &mut s.docstring`: the sink itself is optional — nothing to substitute when it is absent
+                fl = [e for e in A.canon_place(rk, d[1])["p"] if isinstance(e, dict) and "f" in e]
+                if fl and (fl[-1].get("o"), fl[-1].get("n")) in (("gherkin::Step", "docstring"), ("gherkin::Step", "table")):
+                    continue
+                dd = A.local_def_desc(rk, d[1]["l"]) if not fl else None
+                if dd and dd[0] == "place":
+                    fl2 = [e for e in A.canon_place(rk, dd[1])["p"] if isinstance(e, dict) and "f" in e]
+                    if fl2 and (fl2[-1].get("o"), fl2[-1].get("n")) in (("gherkin::Step", "docstring"), ("gherkin::Step", "table")):
+                        continue
             extra.append(A.describe_operand(rk, g.term["discr"]))
         R.check(not extra, "sink/unconditional", cs, "substitution applied to every step / value", f"a substitution is skipped under a condition ({extra}): placeholders of such steps stay unsubstituted")
     # the steps loop covers every step: iter_mut over Scenario.steps without lossy adaptors
@@ -166,9 +189,12 @@ def r2(F, R):
         sl = A.slice_back(sk, [ra[0][1]["args"][1]])
         R.check(bool(sl.params), "replaces-in-given-text", ra[0][0], "", "replace_all is not applied to the given text")
     # template regex constant
-    regs = [b for b in F.crate_bodies() if re.match(r"^feature::(\w+::)*TEMPLATE_REGEX\b", b.name)]
+    regs = [b for b in F.crate_bodies() if b.name.startswith("feature::") and any(callee_is(t, r"Regex::new$") for nb in F.nested(b) for _, t in nb.calls()) and
+            (b.kind not in ("Fn", "AssocFn"))]
+    regs = regs + [nb for b in regs for nb in F.nested(b) if nb is not b]
     pats = [const_str(op) for b in regs for _, st in b.assigns() for op in A.rvalue_operands(st["rv"]) if const_str(op) is not None]
     pats += [const_str(a) for b in regs for _, t in b.calls(lambda t: callee_is(t, r"Regex::new$")) for a in t["args"] if const_str(a) is not None]
+    pats = sorted(set(pats))
     R.check(len(pats) == 1 and re.fullmatch(r"<\(\[\^>\\+s\]\+\)>", pats[0]) is not None, "template-pattern", regs[0] if regs else None, "`<([^>\\s]+)>`", f"template regex is {pats}")
     R.floor(3)
 
@@ -192,13 +218,18 @@ def r3(F, R):
     rp = A.closure_of_operand(F, sk, ra[0][1]["args"][2]) if len(ra) == 1 and len(ra[0][1]["args"]) > 2 else None
     ok_fb = False
     if rp is not None:
-        rows = D.Deep(F, rp, max_paths=400).run()
+        # (the column look-up may live in a private helper returning an Option — `self.value_of(name)` — which stays one opaque call)
+        helpers = [hb for hb in roles.family(F, ex) if hb.kind in ("Fn", "AssocFn") and hb is not sk and hb is not rk and hb is not ex and
+                   hb.locals[0].startswith("std::option::Option<&") and any(F.callee_body(t9, nb9.crate) is hb for nb9 in F.nested(rp) for _, t9 in nb9.calls())]
+        opq = "^(" + "|".join(re.escape(hb.name) for hb in helpers) + ")$" if helpers else None
+        LOOK = r"Iterator::(find_map|find|position)$" + ("|" + opq if opq else "")
+        rows = D.Deep(F, rp, max_paths=400, opaque=opq).run()
         ok_fb = bool(rows)
         seen_err = 0
         for p in rows:
             if p.cut:
                 continue
-            look = [o for a, o in p.conds if a[0] == "discr" and a[1][0] == "call" and re.search(r"Iterator::(find_map|find|position)$", a[1][1])]
+            look = [o for a, o in p.conds if a[0] == "discr" and a[1][0] == "call" and re.search(LOOK, a[1][1])]
             errw = [e for e in p.effects if e[0] == "write" and D.mentions(e[2], lambda x: D.is_variant(x, "feature::ExpandExamplesError"))]
             if len(look) != 1:
                 ok_fb = False
@@ -380,6 +411,33 @@ def r4(F, R):
     for nb in ek:
         names = [callee_path(t).rsplit("::", 1)[-1] for _, t in nb.calls() if (op_fn(t["func"]) or {}).get("trait", "").endswith(("Iterator", "IntoIterator"))]
         okf = sorted(names) == ["collect", "flat_map", "into_iter"]
+    if not okf:
+        # explicit-loop spelling (closure or private helper): `for sc in scenarios { for r in expand_scenario(sc, ..) { out.push(r?) } }` — both
+        # loops are left only at their iterator's end (or through the `?` of a failed expansion) and every way round passes the push / the inner loop
+        cands = list(F.nested(b))
+        for nb0 in list(cands):
+            for _, t0 in nb0.calls():
+                cb0 = F.callee_body(t0, nb0.crate)
+                if cb0 is not None and cb0.name.startswith("feature::") and cb0 is not ex and cb0 not in cands:
+                    cands += F.nested(cb0)
+        for nb in cands:
+            if nb is b and not any(callee_is(t, r"Vec::<.*>::push$") for _, t in nb.calls()):
+                continue
+            pushes = [s_ for s_, t in nb.calls(lambda t: callee_is(t, r"Vec::<.*>::push$"))]
+            nexts = [(s_, t) for s_, t in nb.calls(lambda t: callee_is(t, r"Iterator::next$")) if nb.in_cycle(s_)]
+            calls_ex = [s_ for s_, t in nb.calls() if F.callee_body(t, nb.crate) is ex]
+            if len(pushes) != 1 or len(nexts) != 2 or len(calls_ex) != 1:
+                continue
+            lossy = [callee_path(t).rsplit("::", 1)[-1] for _, t in nb.calls() if (op_fn(t["func"]) or {}).get("trait", "").endswith(("Iterator", "Itertools", "DoubleEndedIterator"))
+                     and callee_path(t).rsplit("::", 1)[-1] in LOSSY]
+            is_ret = lambda y, nb=nb: nb.blocks[y]["term"]["k"] in ("return", "goto") and 0 in {st_["pl"]["l"] for st_ in nb.blocks[y]["stmts"]} or \
+                any(callee_is(nb.blocks[z]["term"], r"FromResidual.*::from_residual$") for z in nb.reachable_blocks(y) if nb.blocks[z]["term"]["k"] == "call")
+            loops = [A.natural_loop(nb, s_.bb) for s_, _ in nexts]
+            inner = min(range(2), key=lambda i: len(loops[i]))
+            outer = 1 - inner
+            ok_in = A.for_loop_handles_every_element(nb, nexts[inner][0], nexts[inner][1], {pushes[0].bb}, exit_ok=is_ret)
+            ok_out = A.for_loop_handles_every_element(nb, nexts[outer][0], nexts[outer][1], set(loops[inner]), exit_ok=is_ret)
+            okf = ok_in and ok_out and not lossy
     R.check(okf, "expand-keeps-order", b, "scenarios.into_iter().flat_map(expand_scenario).collect()", "scenarios are not expanded in place and in order")
     R.floor(7)
 
